@@ -248,4 +248,141 @@ theorem tie_add (fb : SrcBuf) (h : WF fb) (off len : BitVec 32) (frag : List (Bi
       exact ⟨by rw [i3]; exact h.npos, by rw [i2, i3]; simp only [hdl]; exact h.dlen,
         by rw [i4, i3]; exact h.rlen, by rw [i3, i1]; exact h.tot⟩
 
+/-! ### `complete`, `assembled` -/
+
+theorem ob_beq (x y : BitVec 8) : (ob x == ob y) = (x == y) := by
+  apply Bool.eq_iff_iff.mpr
+  simp only [beq_iff_eq]
+  exact ob_inj
+
+theorem ob_and (x y : BitVec 8) : ob (x &&& y) = ob x &&& ob y := rfl
+
+theorem all_ff (r : List (BitVec 8)) (l : List Nat) :
+    l.all (fun i => (r.map ob).getD i 0 == 0xFF) = !(l.any fun k => r.getD k 0#8 != 255#8) := by
+  induction l with
+  | nil => rfl
+  | cons a l ih =>
+    have : ((r.map ob).getD a 0 == 0xFF) = (r.getD a 0#8 == 255#8) := by
+      rw [getD_map_ob]; exact ob_beq _ 255#8
+    simp only [List.all_cons, List.any_cons, ih, this, bne, Bool.not_or, Bool.not_not]
+
+/-- `complete`, every well-formed buffer: no panic (every bitmap index is in range), the
+model's answer -/
+theorem tie_complete (fb : SrcBuf) (h : WF fb) :
+    Src.dtlcp.fragmentBuffer.complete fb = .ok (complete (abs fb)) := by
+  have hnb : fb.numBytes < 2 ^ 32 := by
+    have ht := h.tot; have := fb.totalLen.isLt
+    split at ht <;> omega
+  have hnp := h.npos
+  have hr := h.rlen
+  obtain ⟨n, hn⟩ : ∃ n : Nat, fb.numBytes = n := ⟨fb.numBytes.toNat, by omega⟩
+  unfold Src.dtlcp.fragmentBuffer.complete complete
+  simp only [bind, Except.bind, pure, Except.pure]
+  have hn' : (abs fb).n = n := by simp only [abs, hn, Int.toNat_natCast]
+  have hrec : (abs fb).received = fb.received.map ob := rfl
+  rw [hn] at hr hnb
+  rw [hn, hn', hrec, shr3_int, Int.toNat_natCast, List.range_eq_range', andInt7 n (by omega)]
+  rw [forIn_range'_find _ (fun k => fb.received.getD k 0#8 != 255#8) (none, ()) (some false, ())
+    (n / 8) ?hs (n / 8) 0 (by omega)]
+  case hs =>
+    intro k hk
+    rw [idx_ok _ _ (by omega)]
+    simp only []
+    split <;> rfl
+  rw [← List.range_eq_range']
+  simp only [Gotlcp.Lemmas.Fragment.shr3, Gotlcp.Lemmas.Fragment.and7, all_ff]
+  cases hany : (List.range (n / 8)).any (fun k => fb.received.getD k 0#8 != 255#8)
+  · simp only [Bool.false_eq_true, if_false, Bool.not_false, Bool.not_true]
+    by_cases hrem : n % 8 > 0
+    · have hrem' : ((n % 8 : Nat) : Int) > 0 := by omega
+      have hm : (((n % 8 : Nat)) : Int).toNat = n % 8 := by omega
+      simp only [hrem, hrem', decide_true, if_true, hm]
+      rw [idx_ok _ _ (by omega)]
+      simp only [getD_map_ob, ← ob_mask _ (Nat.mod_lt n (by omega)), ← ob_and, ob_beq, bne,
+        Bool.not_false, Bool.not_true, Bool.false_eq_true, if_false]
+      split
+      · rename_i hb; simp only [Bool.not_eq_true'] at hb; rw [hb]
+      · rename_i hb; simp only [Bool.not_eq_true', Bool.not_eq_false] at hb; rw [hb]
+    · have hrem' : ¬ ((n % 8 : Nat) : Int) > 0 := by omega
+      simp only [hrem, hrem', decide_false, if_false, Bool.false_eq_true]
+  · simp only [if_true, Bool.not_true, Bool.not_false]
+
+/-- `assembled` is the data slice -/
+theorem tie_assembled (fb : SrcBuf) :
+    (Src.dtlcp.fragmentBuffer.assembled fb).map ob = assembled (abs fb) := rfl
+
+/-! ### whole fragment lists -/
+
+/-- a fragment as handed to the translated `addFragment` -/
+structure SrcFrag where
+  off : BitVec 32
+  len : BitVec 32
+  body : List (BitVec 8)
+deriving Repr, DecidableEq
+
+def absFrag (f : SrcFrag) : Frag := ⟨f.off.toNat, f.len.toNat, f.body.map ob⟩
+
+/-- feed a list of fragments through the TRANSLATED `addFragment`, collecting the accept bits
+(a panic anywhere is an `Except.error`) -/
+def srcRun (fb : SrcBuf) : List SrcFrag → Except String (SrcBuf × List Bool)
+  | [] => .ok (fb, [])
+  | f :: fs =>
+    match Src.dtlcp.fragmentBuffer.addFragment fb f.off f.len f.body with
+    | .error e => .error e
+    | .ok (fb1, ok) =>
+      match srcRun fb1 fs with
+      | .error e => .error e
+      | .ok (fb2, oks) => .ok (fb2, ok :: oks)
+
+/-- all fragment lists (any order, overlap, duplication, out-of-range fragments) from any
+well-formed buffer: no panic, the model's buffer and accept bits -/
+theorem tie_run (fs : List SrcFrag) (fb : SrcBuf) (h : WF fb) :
+    ∃ fb' oks, srcRun fb fs = .ok (fb', oks) ∧ (abs fb', oks) = run (abs fb) (fs.map absFrag) ∧ WF fb' := by
+  induction fs generalizing fb with
+  | nil => exact ⟨fb, [], rfl, rfl, h⟩
+  | cons f fs ih =>
+    obtain ⟨fb1, ok, e1, m1, w1⟩ := tie_add fb h f.off f.len f.body
+    obtain ⟨fb2, oks, e2, m2, w2⟩ := ih fb1 w1
+    refine ⟨fb2, ok :: oks, ?_, ?_, w2⟩
+    · simp only [srcRun, e1, e2]
+    · simp only [List.map_cons, run, absFrag]
+      have a1 := congrArg Prod.fst m1
+      have a2 := congrArg Prod.snd m1
+      simp only at a1 a2
+      rw [← a1, ← a2]
+      have b1 := congrArg Prod.fst m2
+      have b2 := congrArg Prod.snd m2
+      simp only at b1 b2
+      rw [← b1, ← b2]
+
+/-- the receiver's use of a buffer: `newFragmentBuffer(total)`, the fragments, then
+`complete()` and `assembled()` — all through the translated source -/
+def srcSession (t : BitVec 32) (fs : List SrcFrag) : Except String (List Bool × Bool × List (BitVec 8)) :=
+  match Src.dtlcp.newFragmentBuffer t with
+  | .error e => .error e
+  | .ok fb =>
+    match srcRun fb fs with
+    | .error e => .error e
+    | .ok (fb', oks) =>
+      match Src.dtlcp.fragmentBuffer.complete fb' with
+      | .error e => .error e
+      | .ok c => .ok (oks, c, Src.dtlcp.fragmentBuffer.assembled fb')
+
+/-- fresh buffer of any announced length, any fragment list: the translated source never
+panics; accept bits, completeness and assembled bytes are the model's -/
+theorem tie_session (t : BitVec 32) (fs : List SrcFrag) :
+    ∃ d, srcSession t fs = .ok ((run (newBuf t.toNat) (fs.map absFrag)).2,
+        complete (run (newBuf t.toNat) (fs.map absFrag)).1, d) ∧
+      d.map ob = assembled (run (newBuf t.toNat) (fs.map absFrag)).1 := by
+  obtain ⟨fb, e0, m0, w0⟩ := tie_new t
+  obtain ⟨fb', oks, e1, m1, w1⟩ := tie_run fs fb w0
+  have e2 := tie_complete fb' w1
+  rw [m0] at m1
+  have a1 := congrArg Prod.fst m1
+  have a2 := congrArg Prod.snd m1
+  simp only at a1 a2
+  refine ⟨Src.dtlcp.fragmentBuffer.assembled fb', ?_, ?_⟩
+  · simp only [srcSession, e0, e1, e2, a1, a2]
+  · rw [tie_assembled, a1]
+
 end Gotlcp.Tie.Fragment
